@@ -185,6 +185,13 @@ def make_symbolic(I, kind, name):
         if len(kind) > 2 and kind[2]:
             o.meta['column_kinds'] = dict(kind[2])
         return o
+    if tag == 'managed_fresh':
+        # a pie object just constructed (not in the store): class chosen among the stored classes
+        from . import dbmodel
+        cls = dbmodel.choose_stored_class(I, "fresh-class")
+        return dbmodel.new_managed(I, cls, name, attached=False)
+    if tag == 'tainted_bytes':
+        return SSeq('bytes', [('s', fresh(name, IntSeq))], frozenset([kind[1]]))
     if tag == 'opaque_facts':
         return Opaque('object', kind[1], facts=set(kind[2]))
     if tag == 'model':
@@ -339,6 +346,7 @@ def prove_contract(session, c, max_paths=4000, time_budget=None, known=()):
         if a.kwarg is not None:
             args[a.kwarg.arg] = {}
         path.inputs = {k: M.snapshot_value(v) for k, v in args.items()}
+        path.live_inputs = args
         spec_locals = dict(args)
         for name, src in c.lets:
             if src in ('int', 'nat', 'bytes', 'str', 'bool', 'ascii'):
